@@ -38,7 +38,7 @@ for d in sorted(glob.glob(os.path.join(V, "seeded", "*"))):
             if rt.get("detected") else "NOT detected"
     rows.append("| %s | %s | %s | %s | %s | %s |" % (
         os.path.basename(d), (m.get("summary") or "")[:160].replace("|", "/"), (m.get("needs") or "")[:120].replace("|", "/"),
-        (m.get("suite_with_change") or "not run yet")[:30],
+        (m.get("suite_with_change") or (("exit %s: %s" % (w.get("suite_exit_with_change"), w.get("suite_tail"))) if w.get("suite_tail") else "not run yet"))[:30],
         ("%s: %s" % (",".join(w.get("detected_by") or ["—"]), "; ".join(sorted(set(keys))[:3])[:150])) if m.get("confirmed_by_integrator")
         else "not counted — " + (m.get("note") or "")[:120], rtx))
 rows.append("")
